@@ -45,7 +45,7 @@ def _layouts(tier):
 
 
 def AXES(tier):
-    return {"layout": len(_layouts(tier)), "scale": [1.0, 2.0], "picker": PICKERS, "chunking": CHUNKS, "dtype": DTYPES}
+    return {"layout": len(_layouts(tier)), "scale": [1.0, 2.0], "picker": PICKERS, "chunking": CHUNKS, "dtype": DTYPES, "matcher_min_distance_px": [3.0, 0.8]}
 
 
 def cases(tier, seed):
@@ -61,7 +61,19 @@ def cases(tier, seed):
                     if dt != "float32" and not (li % 7 == 0 and scale == 1.0):
                         continue
                     out.append({"layout": list(lay), "scale": scale, "picker": picker, "dtype": dt, "seed": seed})
+                if picker == "ZNCC":
+                    # exclusion distance below one pixel (e.g. the default min_distance on a binned tomogram): no maximum filter,
+                    # maxima are the connected regions above min_score
+                    out.append({"layout": list(lay), "scale": scale, "picker": picker, "dtype": "float32", "seed": seed, "mindist": "sub-pixel"})
+    # a single-slice image (a micrograph held as (1, Y, X)): every axis-0 overlap depth exceeds the image
+    for lay in ([0], [4], [0, 1], [1, 3], [0, 1, 3], [0, 1, 3, 4]):
+        for scale in (1.0, 2.0):
+            for picker in ("LoG", "DoG"):
+                out.append({"layout": lay, "scale": scale, "picker": picker, "dtype": "float32", "seed": seed, "img": [1, 24, 24]})
     return out
+
+
+THIN_CHUNKS = ["numpy", "dask:whole", "dask:1,12,12", "dask:1,8,24", "dask:1,24,5", "dask:thin-irregular"]
 
 
 def _as_array(a, kind):
@@ -72,6 +84,8 @@ def _as_array(a, kind):
     spec = kind.split(":")
     if spec[1] == "whole":
         return da.from_array(a, chunks=a.shape)
+    if spec[1] == "thin-irregular":
+        return da.from_array(a, chunks=((1,), (10, 14), (5, 8, 11)))
     if spec[1] == "irregular":  # non-uniform chunk sizes along every axis
         return da.from_array(a, chunks=((10, 14), (17, 7), (5, 8, 11)))
     if spec[1].startswith("slab"):
@@ -93,11 +107,14 @@ ROTVECS = [(0.0, 0.0, 0.0), (0.0, 0.0, np.pi / 2), (np.pi / 2, 0.0, 0.0)]
 def _image(case):
     from scipy.spatial.transform import Rotation
 
-    g = np.stack(np.meshgrid(*[np.arange(n, dtype=np.float64) for n in IMG], indexing="ij"), -1)
-    img = np.zeros(IMG, dtype=np.float64)
+    shape = tuple(case.get("img", IMG))
+    g = np.stack(np.meshgrid(*[np.arange(n, dtype=np.float64) for n in shape], indexing="ij"), -1)
+    img = np.zeros(shape, dtype=np.float64)
     planted = []
     for n, si in enumerate(case["layout"]):
         c = np.array(SITES[si], dtype=np.float64)
+        if shape[0] == 1:
+            c[0] = 0.0
         if case["picker"] == "ZNCC":
             k = (si + n) % 3
             R = Rotation.from_rotvec(ROTVECS[k]).as_matrix()
@@ -129,6 +146,8 @@ def _picker(case):
     if case["picker"] == "DoG":
         return pick.DoGPicker(1.5 * s, 2.6 * s), {}
     tm = data.particle_box(TEMPLATE_SHAPE, blobs=TBLOBS)
+    if case.get("mindist") == "sub-pixel":
+        return pick.ZNCCTemplateMatcher(tm, rotation=Rotation.from_rotvec(np.array(ROTVECS)), order=1), {"min_distance": 0.8 * s, "min_score": 0.8}
     return pick.ZNCCTemplateMatcher(tm, rotation=Rotation.from_rotvec(np.array(ROTVECS)), order=1), {"min_distance": 3.0 * s, "min_score": 0.6}
 
 
@@ -157,7 +176,8 @@ def run_case(case):
     img, planted = _image(case)
     scale = case["scale"]
     picker, kw = _picker(case)
-    pk = case["picker"]
+    pk = case["picker"] + ("[min_distance<1px]" if case.get("mindist") else "") + ("[single-slice]" if "img" in case else "")
+    shape = np.array(case.get("img", IMG))
     quats = Rotation.from_rotvec(np.array(ROTVECS)).as_quat()
     viol = []
     seen = set()
@@ -171,13 +191,13 @@ def run_case(case):
         m = picker.pick_molecules(_as_array(img, kind), scale, **kw)
         pos = np.asarray(m.pos, dtype=np.float64) / scale
         rot = [0] * len(pos)
-        if pk == "ZNCC" and len(pos):
+        if pk.startswith("ZNCC") and len(pos):
             q = m.quaternion()
             rot = [int(np.argmax([abs(float(np.dot(qi, qq))) for qq in quats])) for qi in q]
         return [(pos[i], rot[i]) for i in range(len(pos))]
 
     results = {}
-    for kind in CHUNKS:
+    for kind in (THIN_CHUNKS if "img" in case else CHUNKS):
         cls = "numpy" if kind == "numpy" else ("single-chunk" if kind == "dask:whole" else ("below-depth" if kind.endswith(":2") else "multi-chunk"))
         try:
             results[kind] = run(kind)
@@ -187,13 +207,13 @@ def run_case(case):
             add(f"{ID}|{pk}|raised-{type(e).__name__}|{cls}", f"chunking {kind}, layout {case['layout']}: {type(e).__name__}: {str(e)[:150]} at {acryo_frame(e.__traceback__)}")
             continue
         picks = results[kind]
-        outside = [p for p in picks if np.any(p[0] < -0.5) or np.any(p[0] > np.array(IMG) - 0.5)]
+        outside = [p for p in picks if np.any(p[0] < -0.5) or np.any(p[0] > shape - 0.5)]
         if outside:
-            add(f"{ID}|{pk}|pick-outside-image|{cls}", f"chunking {kind}, layout {case['layout']}, scale {scale}: pick at {np.round(outside[0][0], 2).tolist()} px in a {IMG} image")
+            add(f"{ID}|{pk}|pick-outside-image|{cls}", f"chunking {kind}, layout {case['layout']}, scale {scale}: pick at {np.round(outside[0][0], 2).tolist()} px in a {tuple(shape.tolist())} image")
         extra, missing = _match(picks, planted, 1.0)
         if missing:
             # a wrong rotation shows up as missing + extra at the same place
-            kindm = "wrong-rotation" if pk == "ZNCC" and any(np.abs(e[0] - m_[0]).max() <= 1.0 for e in extra for m_ in missing) else "particle-missed"
+            kindm = "wrong-rotation" if pk.startswith("ZNCC") and any(np.abs(e[0] - m_[0]).max() <= 1.0 for e in extra for m_ in missing) else "particle-missed"
             add(f"{ID}|{pk}|{kindm}|{cls}", f"chunking {kind}, layout {case['layout']} (sites {[SITES[i] for i in case['layout']]}), scale {scale}, dtype {case['dtype']}: {len(picks)} picks {[np.round(p[0], 1).tolist() for p in picks[:5]]}; not found: {[m_[0].tolist() for m_ in missing]}")
         elif extra:
             dup = any(np.abs(e[0] - p_[0]).max() <= 1.0 for e in extra for p_ in planted)
